@@ -98,7 +98,7 @@ func newDepack(kind string) depack {
 		return &codecs.H264Packet{}
 	case "h264_avc":
 		return &codecs.H264Packet{IsAVC: true}
-	case "h265":
+	case "h265", "h265_toggle":
 		return &codecs.H265Packet{}
 	case "h265_donl":
 		p := &codecs.H265Packet{}
@@ -121,7 +121,7 @@ func newDepack(kind string) depack {
 
 func perPacket(kind string) bool {
 	switch kind {
-	case "vp8", "vp9", "h265", "h265_donl", "opus":
+	case "vp8", "vp9", "h265", "h265_donl", "h265_toggle", "opus":
 		return true
 	}
 	return false
@@ -272,8 +272,18 @@ func runC09(raw json.RawMessage, w *Writer) {
 	used := newDepack(c.Kind)
 	twin := newDepack(c.Kind)
 	var given [][]byte
+	// a socket-style caller: one receive buffer, refilled for every packet
+	rxbuf := make([]byte, 0, 64)
 	for k, it := range items {
-		buf := cloneBytes(it)
+		var buf []byte
+		if it != nil {
+			if cap(rxbuf) < len(it) {
+				rxbuf = make([]byte, 0, len(it)+64)
+			}
+			rxbuf = rxbuf[:len(it)]
+			copy(rxbuf, it)
+			buf = rxbuf
+		}
 		if c.Probes {
 			var h1, h2, t1, t2 bool
 			r, _ := guard(func() {
@@ -287,6 +297,13 @@ func runC09(raw json.RawMessage, w *Writer) {
 		}
 		var out, tout, fout []byte
 		var err, terr, ferr error
+		donlNow := c.Kind == "h265_donl"
+		if c.Kind == "h265_toggle" {
+			// the application flips the option between packets (it is a plain setter)
+			donlNow = k%2 == 0
+			used.(*codecs.H265Packet).WithDONL(donlNow)
+			twin.(*codecs.H265Packet).WithDONL(donlNow)
+		}
 		r, msg := guard(func() { out, err = used.Unmarshal(buf) })
 		out = cloneBytes(out)
 		e := Ev{"ev": "unmarshal", "k": k, "kind": c.Kind, "len": len(it), "isnil": it == nil, "res": outcome(r, err), "diag": msg, "out": ints(out)}
@@ -295,6 +312,9 @@ func runC09(raw json.RawMessage, w *Writer) {
 		e["twin_res"], e["twin_out"] = outcome(tr, terr), ints(tout)
 		if perPacket(c.Kind) {
 			f := newDepack(c.Kind)
+			if c.Kind == "h265_toggle" {
+				f.(*codecs.H265Packet).WithDONL(donlNow)
+			}
 			fr, _ := guard(func() { fout, ferr = f.Unmarshal(cloneBytes(it)) })
 			e["fresh_res"], e["fresh_out"] = outcome(fr, ferr), ints(fout)
 			e["meta"], e["fresh_meta"] = meta(used), meta(f)
